@@ -19,7 +19,7 @@ Inductive sop :=
 | SMask (sid : N)
 | SSlice (sid : N)
 | SClear (sid : N)
-| SDrain (sid : N)
+| SDrain (sid : N) (lim : option nat)   (* drain().join(), optionally stopped after lim items *)
 | SEntry (sid : N) (h : href) (eo : entry_op)
 | SGetMutOrDefault (sid : N) (h : href)
 | SRegister (sid : N)               (* register / register_with_storage / SystemData::setup *)
@@ -104,7 +104,8 @@ Definition dec_sop (code : Z) (p : list Z) : option sop :=
   | 37, [s] => Some (SMask (Z.to_N s))
   | 38, [s] => Some (SSlice (Z.to_N s))
   | 39, [s] => Some (SClear (Z.to_N s))
-  | 40, [s] => Some (SDrain (Z.to_N s))
+  | 40, [s] => Some (SDrain (Z.to_N s) None)
+  | 40, [s; k] => Some (SDrain (Z.to_N s) (Some (Z.to_nat k)))
   | 41, [s; h; 0; _; _] => Some (SEntry (Z.to_N s) (Z.to_nat h) EnGet)
   | 41, [s; h; 1; u; v] => Some (SEntry (Z.to_N s) (Z.to_nat h) (EnOrInsert (Z.to_N u, v)))
   | 41, [s; h; 2; u; v] => Some (SEntry (Z.to_N s) (Z.to_nat h) (EnReplace (Z.to_N u, v)))
